@@ -114,7 +114,10 @@ class FileSystemLoader(BaseLoader):
     ) -> TemplateSource:
         """Get source information for a template."""
         loop = asyncio.get_running_loop()
-        if type(self).get_source is not FileSystemLoader.get_source:
+        if (
+            type(self).get_source is not FileSystemLoader.get_source
+            and type(self).get_source_async is FileSystemLoader.get_source_async
+        ):
             # A subclass that customizes `get_source()` only. Asynchronous callers
             # get the same template source as synchronous ones.
             return await loop.run_in_executor(
